@@ -18,7 +18,7 @@ from .c19 import corpus_files, CORPUS_DIR
 WKWS = [{}, {}, {"version": 1.2}, {"version": 2.0}, {"wrap": True}, {"wrap": False}, {"version": 1.2, "wrap": True},
         {"fmt": "%.3f"}, {"fmt": "%.8f"}, {"fmt": "%.6e"}, {"mnemonics_header": True}, {"data_section_header": "~A"},
         {"len_numeric_field": -1}, {"spacer": "  ", "lhs_spacer": ""}, {"data_width": 40, "wrap": True}, {"header_width": 25},
-        {"column_fmt": {"0": "%.2f"}}]
+        {"column_fmt": {"0": "%.2f"}}, {"spacer": ","}, {"spacer": ", "}, {"spacer": "\t"}]
 ODD_UNITS = [".1IN", "0.1IN", "M", "", "US/F", "(m)", "[ft]", "m.", "K/M3", "DEG.C", "in...", "(ohm..)", "m..", "ft....", "[m.]."]
 RKWS = [{}, {}, {"engine": "normal"}, {"mnemonic_case": "preserve"}, {"mnemonic_case": "lower"}, {"null_policy": "none"},
         {"ignore_header_errors": True}, {"mnemonic_case": "lower", "engine": "normal"}, {"index_unit": "m"}, {"dtypes": "auto"}]
@@ -187,7 +187,95 @@ class C11(Prop):
                     return True
         return False
 
-    predicates = {"las3_input": pred_las3, "quoted_text_cells": pred_quoted, "empty_null_value": pred_empty_null,
+    def pred_wrapped_spacer(sc, v, params):
+        """known finding (same defect as F-C01-2): wrapped output with a comma or tab spacer is not re-readable"""
+        import random
+        wkw = sc.get("wkw") or {}
+        if wkw.get("spacer", " ").strip(" ") not in (",", "\t"):
+            return False
+        if wkw.get("wrap") is True:
+            return True
+        if wkw.get("wrap") is False:
+            return False
+        src = sc["src"]
+        if src["kind"] == "corpus":
+            try:
+                lines = corpus_bytes(src["file"]).decode("latin-1").replace("\r\n", "\n").split("\n")
+            except Exception:
+                return False
+        else:
+            lines = list(src.get("lines", []))
+        return any(ln.strip().upper().startswith("WRAP") and "YES" in ln.upper().split(":")[0] for ln in lines[:40])
+
+    def pred_spacer_without_dlm(sc, v, params):
+        """known finding: write(spacer=',' or tab) of an object whose ~Version holds no DLM item declares no delimiter"""
+        import random
+        wkw = sc.get("wkw") or {}
+        if wkw.get("spacer", " ").strip(" ") not in (",", "\t"):
+            return False
+        src = sc["src"]
+        if src["kind"] == "corpus":
+            try:
+                lines = corpus_bytes(src["file"]).decode("latin-1").replace("\r\n", "\n").split("\n")
+            except Exception:
+                return False
+        else:
+            lines = list(src.get("lines", []))
+        if src.get("mutate") is not None:
+            lines = mutate_lines(random.Random(src["mutate"]), lines)
+        sec = None
+        for ln in lines:
+            t = ln.strip()
+            if t.startswith("~"):
+                sec = t[1:2].upper()
+            elif sec == "V" and t.split(".", 1)[0].strip().upper() == "DLM":
+                return False
+        return True
+
+    def pred_blank_text_cells(sc, v, params):
+        """known finding (F-C11-3 for delimited inputs): text cells holding blanks are written unquoted with a blank spacer"""
+        wkw = sc.get("wkw") or {}
+        if wkw.get("spacer", " ").strip(" ") in (",", "\t"):
+            return False
+        lines = sc["src"].get("lines") or []
+        dlm = None
+        in_data = False
+        for ln in lines:
+            t = ln.strip()
+            if t.startswith("~"):
+                in_data = t[:2].upper() == "~A"
+            elif not in_data and t.split(".", 1)[0].strip().upper() == "DLM":
+                dlm = "," if "COMMA" in t.upper() else ("\t" if "TAB" in t.upper() else None)
+            elif in_data and dlm and any(" " in c.strip() for c in t.split(dlm)):
+                return True
+        return False
+
+    def pred_delimited_text_padding(sc, v, params):
+        """known finding (F-C09-2 seen over cycles): with a comma/tab spacer the padding written around a text cell is read
+        back as part of the cell, so the cell grows by the padding on every cycle"""
+        wkw = sc.get("wkw") or {}
+        if wkw.get("spacer", " ").strip(" ") not in (",", "\t"):
+            return False
+        src = sc["src"]
+        if src["kind"] == "corpus":
+            try:
+                lines = corpus_bytes(src["file"]).decode("latin-1").replace("\r\n", "\n").split("\n")
+            except Exception:
+                return False
+        else:
+            lines = src.get("lines") or []
+        in_data = False
+        for ln in lines:
+            t = ln.strip()
+            if t.startswith("~"):
+                in_data = t[:2].upper() == "~A" or "_DATA" in t.upper()
+            elif in_data and not t.startswith("#") and any(ch.isalpha() for ch in t.replace("e", "").replace("E", "").replace("nan", "").replace("NaN", "")):
+                return True
+        return False
+
+    predicates = {"wrapped_nonblank_spacer": pred_wrapped_spacer, "delimited_text_cells_with_blanks": pred_blank_text_cells,
+                  "delimited_text_cell_padding": pred_delimited_text_padding, "nonblank_spacer_without_dlm_item": pred_spacer_without_dlm,
+                  "las3_input": pred_las3, "quoted_text_cells": pred_quoted, "empty_null_value": pred_empty_null,
                   "index_unit_with_trailing_periods": pred_index_unit_periods}
     quick = {"runs": 2500, "wall": 60}
     thorough = {"runs": 100000, "wall": 900}
@@ -200,8 +288,22 @@ class C11(Prop):
         elif g.random() < 0.45:
             src = {"kind": "corpus", "file": g.choice(files), "mutate": g.randrange(1 << 30) if g.random() < 0.6 else None}
         else:
-            doc = docmodel.std_doc(g, custom=g.choice([0, 0, 1]), wrap=g.random() < 0.2, nonascii=g.random() < 0.2,
-                                   ncurves=g.choice([None, None, None, None, 7, 14, 21, 24, 28, 35, 36]))
+            delimited = g.random() < 0.1
+            if delimited:
+                # DLM COMMA / TAB input with a text column whose cells hold blanks (legal there without quotes)
+                nct = g.randint(2, 4)
+                jt = g.randrange(1, nct)
+                words = ["fine sand", "coarse grained sand", "shale", "lime stone", "n a"]
+
+                def cell(i, j, jt=jt, words=words):
+                    return words[i % len(words)] if j == jt else "%.4f" % (i * 0.5 if j == 0 else (i * 10 + j) * 1.25)
+                doc = docmodel.std_doc(g, custom=0, ncurves=nct, nrows=g.randint(2, 5), cell=cell)
+                dl = g.choice(["COMMA", "COMMA", "TAB"])
+                doc["sections"][0]["items"].append(["DLM", "", dl, "DELIMITING CHARACTER"])
+                doc["sep"] = g.choice([",", ", "]) if dl == "COMMA" else "\t"
+            else:
+                doc = docmodel.std_doc(g, custom=g.choice([0, 0, 1]), wrap=g.random() < 0.2, nonascii=g.random() < 0.2,
+                                       ncurves=g.choice([None, None, None, None, 7, 14, 21, 24, 28, 35, 36]))
             if g.random() < 0.3:
                 for sec in doc["sections"]:
                     if sec["kind"] == "C" and len(sec["items"]) > 1:
@@ -225,7 +327,10 @@ class C11(Prop):
             ch = g.choice(["path", "Path", "stream", "stringio", "string"])
             cycles.append({"out": out, "codec": codec if out == "stream" else "utf-8",
                            "in": {"channel": ch, "codec": codec, "explicit": True, "newline": g.choice(["\n", "\n", "\r\n"])}})
-        return {"src": src, "wkw": dict(g.choice(WKWS)), "rkw": dict(g.choice(RKWS)), "cycles": cycles,
+        wkw = dict(g.choice(WKWS))
+        if src["kind"] == "lines" and any(ln.startswith("DLM") and ("COMMA" in ln or "TAB" in ln) for ln in src["lines"][:8]) and g.random() < 0.5:
+            wkw = {"spacer": g.choice([",", ", ", "\t"])}         # delimited in, delimited out
+        return {"src": src, "wkw": wkw, "rkw": dict(g.choice(RKWS)), "cycles": cycles,
                 "policy": Policy.draw(st.io).to_json()}
 
     def run(self, sc):
